@@ -78,7 +78,658 @@ theorem cmpBytes_lt_trans (a b c : Bytes) :
             · simp [hxz]
             · by_cases hzx : z < x
               · simp [hxz, hzx]
-              · simp only [hxz, hzx, if_false]
+              · have : x = z := by grind
+                subst this
+                simp only [hxy, if_false]
                 exact ih ys zs
+
+/-- "not greater" is "less or equal". -/
+theorem cmpBytes_ne_gt_iff (a b : Bytes) : cmpBytes a b ≠ .gt ↔ cmpBytes a b = .lt ∨ a = b := by
+  rw [← cmpBytes_eq_iff]
+  cases cmpBytes a b <;> simp
+
+theorem cmpBytes_le_trans (a b c : Bytes) :
+    cmpBytes a b ≠ .gt → cmpBytes b c ≠ .gt → cmpBytes a c ≠ .gt := by
+  simp only [cmpBytes_ne_gt_iff]
+  rintro (h1 | h1) (h2 | h2)
+  · exact .inl (cmpBytes_lt_trans a b c h1 h2)
+  · subst h2; exact .inl h1
+  · subst h1; exact .inl h2
+  · subst h1; exact .inr h2
+
+theorem cmpBytes_lt_of_lt_of_le (a b c : Bytes) :
+    cmpBytes a b = .lt → cmpBytes b c ≠ .gt → cmpBytes a c = .lt := by
+  simp only [cmpBytes_ne_gt_iff]
+  rintro h1 (h2 | h2)
+  · exact cmpBytes_lt_trans a b c h1 h2
+  · subst h2; exact h1
+
+theorem cmpBytes_lt_of_le_of_lt (a b c : Bytes) :
+    cmpBytes a b ≠ .gt → cmpBytes b c = .lt → cmpBytes a c = .lt := by
+  simp only [cmpBytes_ne_gt_iff]
+  rintro (h1 | h1) h2
+  · exact cmpBytes_lt_trans a b c h1 h2
+  · subst h1; exact h2
+
+theorem cmpBytes_lt_irrefl (a : Bytes) : cmpBytes a a ≠ .lt := by
+  rw [cmpBytes_self]; simp
+
+theorem cmpBytes_lt_asymm (a b : Bytes) : cmpBytes a b = .lt → cmpBytes b a ≠ .lt := by
+  intro h1 h2
+  exact cmpBytes_lt_irrefl a (cmpBytes_lt_trans a b a h1 h2)
+
+/-! ### `cut`, `key`, `validPair` -/
+
+theorem cut_some {p n v : Bytes} (h : cut p = some (n, v)) : p = n ++ eqByte :: v ∧ eqByte ∉ n := by
+  induction p generalizing n with
+  | nil => simp [cut] at h
+  | cons b rest ih =>
+    simp only [cut] at h
+    split at h
+    · next hb => simp at h; obtain ⟨rfl, rfl⟩ := h; simp [hb]
+    · next hb =>
+      split at h
+      · cases h
+      · next n' v' hc =>
+        simp at h; obtain ⟨rfl, rfl⟩ := h
+        obtain ⟨h1, h2⟩ := ih hc
+        subst h1
+        refine ⟨by simp, ?_⟩
+        simp only [List.mem_cons, not_or]
+        exact ⟨fun h => hb h.symm, h2⟩
+
+theorem cut_append {n : Bytes} (v : Bytes) (h : eqByte ∉ n) : cut (n ++ eqByte :: v) = some (n, v) := by
+  induction n with
+  | nil => simp [cut]
+  | cons b n ih =>
+    simp only [List.mem_cons, not_or] at h
+    have hb : ¬ b = eqByte := fun e => h.1 e.symm
+    simp [cut, hb, ih h.2]
+
+theorem key_of_cut {p n v : Bytes} (h : cut p = some (n, v)) : key p = n ++ [eqByte] := by
+  simp [key, h]
+
+/-- A pair that survives `listEnviron_`: it has an `=` and a non-empty name. -/
+def Valid (p : Bytes) : Prop := ∃ n v, cut p = some (n, v) ∧ n ≠ []
+
+theorem validPair_eq_some {p n v : Bytes} :
+    validPair p = some (n, v) ↔ cut p = some (n, v) ∧ n ≠ [] := by
+  unfold validPair
+  split
+  · next n' v' hc =>
+    split
+    · next hn => subst hn; simp [hc]; rintro rfl; simp
+    · next hn => simp [hc]; rintro rfl rfl; exact hn
+  · next hc => simp [hc]
+
+theorem validPair_of_cut {p n v : Bytes} (h : cut p = some (n, v)) (hn : n ≠ []) :
+    validPair p = some (n, v) := validPair_eq_some.2 ⟨h, hn⟩
+
+theorem validPair_isSome_iff (p : Bytes) : (validPair p).isSome ↔ Valid p := by
+  constructor
+  · intro h
+    obtain ⟨⟨n, v⟩, hv⟩ := Option.isSome_iff_exists.1 h
+    exact ⟨n, v, validPair_eq_some.1 hv⟩
+  · rintro ⟨n, v, h1, h2⟩
+    simp [validPair_of_cut h1 h2]
+
+/-! ### `specGet` as a fold -/
+
+/-- One step of the left-to-right map construction, looking only at `name`. -/
+def step (name : Bytes) (acc : Option Bytes) (p : Bytes) : Option Bytes :=
+  match validPair p with
+  | some (n, v) => if n = name then some v else acc
+  | none => acc
+
+theorem specGet_eq (l : List Bytes) (name : Bytes) : specGet l name = l.foldl (step name) none := rfl
+
+theorem specGet_append (a b : List Bytes) (name : Bytes) :
+    specGet (a ++ b) name = b.foldl (step name) (specGet a name) := by
+  simp [specGet_eq, List.foldl_append]
+
+/-- A pair whose key is not `name=` does not influence the lookup of `name`. -/
+theorem step_of_key_ne {name p : Bytes} (acc : Option Bytes) (h : key p ≠ name ++ [eqByte]) :
+    step name acc p = acc := by
+  unfold step
+  split
+  · next n v hv =>
+    have hc := (validPair_eq_some.1 hv).1
+    rw [key_of_cut hc] at h
+    have : n ≠ name := by rintro rfl; exact h rfl
+    simp [this]
+  · rfl
+
+theorem step_of_not_valid {name p : Bytes} (acc : Option Bytes) (h : validPair p = none) :
+    step name acc p = acc := by
+  simp [step, h]
+
+theorem step_of_cut {name p n v : Bytes} (acc : Option Bytes) (h : cut p = some (n, v)) (hn : n ≠ []) :
+    step name acc p = if n = name then some v else acc := by
+  simp [step, validPair_of_cut h hn]
+
+theorem foldl_step_filter_key (l : List Bytes) (name : Bytes) (acc : Option Bytes) :
+    l.foldl (step name) acc
+      = (l.filter fun p => key p = name ++ [eqByte]).foldl (step name) acc := by
+  induction l generalizing acc with
+  | nil => rfl
+  | cons p l ih =>
+    by_cases h : key p = name ++ [eqByte]
+    · simp [h, ih]
+    · simp [h, step_of_key_ne acc h, ih]
+
+theorem foldl_step_filter_valid (l : List Bytes) (name : Bytes) (acc : Option Bytes) :
+    l.foldl (step name) acc
+      = (l.filter fun p => (validPair p).isSome).foldl (step name) acc := by
+  induction l generalizing acc with
+  | nil => rfl
+  | cons p l ih =>
+    cases h : validPair p with
+    | none => simp [h, step_of_not_valid acc h, ih]
+    | some nv => simp [h, ih]
+
+/-! ### The stable insertion sort -/
+
+def KLt (a b : Bytes) : Prop := cmpBytes (key a) (key b) = .lt
+def KLe (a b : Bytes) : Prop := cmpBytes (key a) (key b) ≠ .gt
+
+theorem le_iff (a b : Bytes) : le a b = true ↔ KLe a b := by
+  simp [le, KLe]
+
+theorem KLe_of_not_le {a b : Bytes} (h : ¬ le a b = true) : KLe b a ∧ key a ≠ key b := by
+  rw [le_iff] at h
+  simp only [KLe, ne_eq, Decidable.not_not] at h
+  have h2 := (cmpBytes_gt_iff _ _).1 h
+  refine ⟨by simp [KLe, h2], ?_⟩
+  intro e
+  rw [e, cmpBytes_self] at h
+  cases h
+
+theorem mem_insert {x z : Bytes} {l : List Bytes} : z ∈ C34.insert x l ↔ z = x ∨ z ∈ l := by
+  induction l with
+  | nil => simp [C34.insert]
+  | cons y ys ih =>
+    simp only [C34.insert]
+    split
+    · simp
+    · simp [ih]; grind
+
+theorem sorted_insert (x : Bytes) (l : List Bytes) (h : l.Pairwise KLe) :
+    (C34.insert x l).Pairwise KLe := by
+  induction l with
+  | nil => simp [C34.insert]
+  | cons y ys ih =>
+    simp only [C34.insert]
+    rw [List.pairwise_cons] at h
+    split
+    · next hle =>
+      rw [le_iff] at hle
+      refine List.pairwise_cons.2 ⟨?_, List.pairwise_cons.2 h⟩
+      intro z hz
+      rcases List.mem_cons.1 hz with rfl | hz
+      · exact hle
+      · exact cmpBytes_le_trans _ _ _ hle (h.1 z hz)
+    · next hle =>
+      refine List.pairwise_cons.2 ⟨?_, ih h.2⟩
+      intro z hz
+      rcases mem_insert.1 hz with rfl | hz
+      · exact (KLe_of_not_le hle).1
+      · exact h.1 z hz
+
+theorem sorted_sortStable (l : List Bytes) : (sortStable l).Pairwise KLe := by
+  induction l with
+  | nil => simp [sortStable]
+  | cons x l ih => exact sorted_insert x _ ih
+
+theorem filter_insert (k : Bytes) (x : Bytes) (l : List Bytes) :
+    (C34.insert x l).filter (fun p => key p = k) = (x :: l).filter (fun p => key p = k) := by
+  induction l with
+  | nil => simp [C34.insert]
+  | cons y ys ih =>
+    simp only [C34.insert]
+    split
+    · rfl
+    · next hle =>
+      have hne := (KLe_of_not_le hle).2
+      rw [List.filter_cons, ih]
+      simp only [List.filter_cons]
+      by_cases h1 : key x = k
+      · have h2 : ¬ key y = k := by rw [← h1]; exact fun e => hne e.symm
+        simp [h1, h2]
+      · simp [h1]
+
+/-- Stability: the sort does not reorder pairs that have the same key. -/
+theorem filter_sortStable (k : Bytes) (l : List Bytes) :
+    (sortStable l).filter (fun p => key p = k) = l.filter (fun p => key p = k) := by
+  induction l with
+  | nil => simp [sortStable]
+  | cons x l ih =>
+    show (C34.insert x (sortStable l)).filter _ = _
+    rw [filter_insert, List.filter_cons, ih, List.filter_cons]
+
+theorem specGet_sortStable (l : List Bytes) (name : Bytes) :
+    specGet (sortStable l) name = specGet l name := by
+  rw [specGet_eq, specGet_eq, foldl_step_filter_key, filter_sortStable, ← foldl_step_filter_key]
+
+/-! ### The dedup loop -/
+
+/-- `last` is the name of the most recently kept pair (`""` before the first one). -/
+def HeadName : List Bytes → Bytes → Prop
+  | [], last => last = []
+  | q :: _, last => ∃ v, cut q = some (last, v)
+
+theorem dedup_inv (rest : List Bytes) : ∀ (kept : List Bytes) (last : Bytes),
+    (∀ p ∈ kept, Valid p) → kept.Pairwise (fun a b => KLt b a) → HeadName kept last →
+    rest.Pairwise KLe → (∀ k ∈ kept, ∀ r ∈ rest, KLe k r) →
+    ∃ l, dedup kept last rest = some l ∧ (∀ p ∈ l, Valid p) ∧ l.Pairwise KLt ∧
+      ∀ n, specGet l n = specGet (kept.reverse ++ rest) n := by
+  induction rest with
+  | nil =>
+    intro kept last hv hs _ _ _
+    refine ⟨kept.reverse, rfl, ?_, List.pairwise_reverse.2 hs, by simp⟩
+    intro p hp; exact hv p (List.mem_reverse.1 hp)
+  | cons p rest ih =>
+    intro kept last hv hs hh hr hkr
+    rw [List.pairwise_cons] at hr
+    have hkr' : ∀ k ∈ kept, ∀ r ∈ rest, KLe k r :=
+      fun k hk r hr' => hkr k hk r (List.mem_cons_of_mem _ hr')
+    -- skipping an invalid pair
+    have skip : validPair p = none →
+        ∃ l, dedup kept last rest = some l ∧ (∀ p ∈ l, Valid p) ∧ l.Pairwise KLt ∧
+          ∀ n, specGet l n = specGet (kept.reverse ++ p :: rest) n := by
+      intro hnv
+      obtain ⟨l, h1, h2, h3, h4⟩ := ih kept last hv hs hh hr.2 hkr'
+      refine ⟨l, h1, h2, h3, ?_⟩
+      intro n
+      rw [h4, specGet_append, specGet_append, List.foldl_cons, step_of_not_valid _ hnv]
+    simp only [dedup]
+    split
+    · next hc => exact skip (by simp [validPair, hc])
+    · next name v hc =>
+      split
+      · next hn => exact skip (by simp [validPair, hc, hn])
+      · next hn =>
+        have hvp : Valid p := ⟨name, v, hc, hn⟩
+        have hkp : key p = name ++ [eqByte] := key_of_cut hc
+        split
+        · next heq =>
+          have heq := (cmpBytes_eq_iff _ _).1 heq
+          subst heq
+          cases kept with
+          | nil => exact absurd hh hn
+          | cons q kept' =>
+            simp only
+            obtain ⟨v', hq⟩ := hh
+            have hkq : key q = last ++ [eqByte] := key_of_cut hq
+            rw [List.pairwise_cons] at hs
+            obtain ⟨l, h1, h2, h3, h4⟩ := ih (p :: kept') last
+              (by
+                intro z hz
+                rcases List.mem_cons.1 hz with rfl | hz
+                · exact hvp
+                · exact hv z (List.mem_cons_of_mem _ hz))
+              (by
+                refine List.pairwise_cons.2 ⟨?_, hs.2⟩
+                intro z hz
+                have := hs.1 z hz
+                simp only [KLt, hkq, hkp] at this ⊢
+                exact this)
+              ⟨v, hc⟩ hr.2
+              (by
+                intro k hk r hr'
+                rcases List.mem_cons.1 hk with rfl | hk
+                · exact hr.1 r hr'
+                · exact hkr' k (List.mem_cons_of_mem _ hk) r hr')
+            refine ⟨l, h1, h2, h3, ?_⟩
+            intro n
+            rw [h4]
+            simp only [List.reverse_cons, List.append_assoc, List.singleton_append]
+            rw [specGet_append, specGet_append]
+            simp only [List.foldl_cons]
+            rw [step_of_cut _ hq hn, step_of_cut _ hc hn, step_of_cut _ hc hn]
+            split <;> rfl
+        · next hne =>
+          have hne : last ≠ name := fun e => hne ((cmpBytes_eq_iff _ _).2 e)
+          obtain ⟨l, h1, h2, h3, h4⟩ := ih (p :: kept) name
+            (by
+              intro z hz
+              rcases List.mem_cons.1 hz with rfl | hz
+              · exact hvp
+              · exact hv z hz)
+            (by
+              refine List.pairwise_cons.2 ⟨?_, hs⟩
+              cases kept with
+              | nil => intro z hz; cases hz
+              | cons q kept' =>
+                obtain ⟨v', hq⟩ := hh
+                have hkq : key q = last ++ [eqByte] := key_of_cut hq
+                have hqp : KLt q p := by
+                  have h := hkr q (List.mem_cons_self ..) p (List.mem_cons_self ..)
+                  rcases (cmpBytes_ne_gt_iff _ _).1 h with h | h
+                  · exact h
+                  · rw [hkq, hkp] at h
+                    exact absurd (List.append_cancel_right h) hne
+                rw [List.pairwise_cons] at hs
+                intro z hz
+                rcases List.mem_cons.1 hz with rfl | hz
+                · exact hqp
+                · exact cmpBytes_lt_trans _ _ _ (hs.1 z hz) hqp)
+            ⟨v, hc⟩ hr.2
+            (by
+              intro k hk r hr'
+              rcases List.mem_cons.1 hk with rfl | hk
+              · exact hr.1 r hr'
+              · exact hkr' k hk r hr')
+          refine ⟨l, h1, h2, h3, ?_⟩
+          intro n
+          rw [h4]
+          simp
+
+/-- Everything the property theorems need to know about the output of `listEnviron_`. -/
+theorem listEnviron_inv (pairs : List Bytes) :
+    ∃ l, listEnviron pairs = some l ∧ (∀ p ∈ l, Valid p) ∧ l.Pairwise KLt ∧
+      ∀ n, specGet l n = specGet pairs n := by
+  obtain ⟨l, h1, h2, h3, h4⟩ := dedup_inv (sortStable pairs) [] [] (by simp) (by simp) rfl
+    (sorted_sortStable pairs) (by simp)
+  refine ⟨l, h1, h2, h3, ?_⟩
+  intro n
+  rw [h4]
+  simpa using specGet_sortStable pairs n
+
+/-! ### Lookups in a list of valid pairs with strictly increasing keys -/
+
+theorem foldl_step_iff (l : List Bytes) (n v : Bytes) (hv : ∀ p ∈ l, Valid p)
+    (hs : l.Pairwise KLt) (acc : Option Bytes) :
+    l.foldl (step n) acc = some v ↔
+      (∃ p ∈ l, cut p = some (n, v)) ∨ (acc = some v ∧ ∀ p ∈ l, ∀ v', cut p ≠ some (n, v')) := by
+  induction l generalizing acc with
+  | nil => simp
+  | cons p l ih =>
+    rw [List.pairwise_cons] at hs
+    obtain ⟨n', v', hc, hn⟩ := hv p (List.mem_cons_self ..)
+    rw [List.foldl_cons, ih (fun q hq => hv q (List.mem_cons_of_mem _ hq)) hs.2,
+      step_of_cut _ hc hn]
+    by_cases e : n' = n
+    · subst e
+      have hno : ∀ q ∈ l, ∀ v'', cut q ≠ some (n', v'') := by
+        intro q hq v'' hcq
+        have := hs.1 q hq
+        simp only [KLt, key_of_cut hc, key_of_cut hcq] at this
+        exact cmpBytes_lt_irrefl _ this
+      constructor
+      · rintro (⟨q, hq, hcq⟩ | ⟨h1, _⟩)
+        · exact absurd hcq (hno q hq v)
+        · simp only [if_true, Option.some.injEq] at h1
+          subst h1
+          exact .inl ⟨p, List.mem_cons_self .., hc⟩
+      · rintro (⟨q, hq, hcq⟩ | ⟨_, h2⟩)
+        · rcases List.mem_cons.1 hq with rfl | hq
+          · rw [hc] at hcq
+            simp only [Option.some.injEq, Prod.mk.injEq, true_and] at hcq
+            subst hcq
+            exact .inr ⟨by simp, hno⟩
+          · exact absurd hcq (hno q hq v)
+        · exact absurd hc (h2 p (List.mem_cons_self ..) v')
+    · have hp : ∀ v'', cut p ≠ some (n, v'') := by
+        intro v'' h
+        rw [hc] at h
+        simp only [Option.some.injEq, Prod.mk.injEq] at h
+        exact e h.1
+      simp only [e, if_false]
+      constructor
+      · rintro (⟨q, hq, hcq⟩ | ⟨h1, h2⟩)
+        · exact .inl ⟨q, List.mem_cons_of_mem _ hq, hcq⟩
+        · refine .inr ⟨h1, ?_⟩
+          intro q hq
+          rcases List.mem_cons.1 hq with rfl | hq
+          · exact hp
+          · exact h2 q hq
+      · rintro (⟨q, hq, hcq⟩ | ⟨h1, h2⟩)
+        · rcases List.mem_cons.1 hq with rfl | hq
+          · exact absurd hcq (hp v)
+          · exact .inl ⟨q, hq, hcq⟩
+        · exact .inr ⟨h1, fun q hq => h2 q (List.mem_cons_of_mem _ hq)⟩
+
+theorem specGet_eq_some_iff (l : List Bytes) (n v : Bytes) (hv : ∀ p ∈ l, Valid p)
+    (hs : l.Pairwise KLt) : specGet l n = some v ↔ ∃ p ∈ l, cut p = some (n, v) := by
+  rw [specGet_eq, foldl_step_iff l n v hv hs]
+  simp
+
+theorem specGet_eq_none_iff (l : List Bytes) (n : Bytes) (hv : ∀ p ∈ l, Valid p)
+    (hs : l.Pairwise KLt) : specGet l n = none ↔ ∀ p ∈ l, ∀ v, cut p ≠ some (n, v) := by
+  constructor
+  · intro h p hp v hc
+    have := (specGet_eq_some_iff l n v hv hs).2 ⟨p, hp, hc⟩
+    rw [h] at this
+    cases this
+  · intro h
+    cases hg : specGet l n with
+    | none => rfl
+    | some v =>
+      obtain ⟨p, hp, hc⟩ := (specGet_eq_some_iff l n v hv hs).1 hg
+      exact absurd hc (h p hp v)
+
+/-- A name containing `=` is never set. -/
+theorem specGet_of_mem_eq (l : List Bytes) (name : Bytes) (h : eqByte ∈ name) :
+    specGet l name = none := by
+  have : ∀ acc, l.foldl (step name) acc = acc := by
+    induction l with
+    | nil => intro acc; rfl
+    | cons p l ih =>
+      intro acc
+      rw [List.foldl_cons, ih]
+      unfold step
+      split
+      · next n v hvp =>
+        have := (cut_some (validPair_eq_some.1 hvp).1).2
+        have : n ≠ name := by rintro rfl; exact this h
+        simp [this]
+      · rfl
+  exact this none
+
+/-! ### `Each` -/
+
+theorem each_inv (l : List Bytes) (hv : ∀ p ∈ l, Valid p) (hs : l.Pairwise KLt) :
+    ∃ nvs, each l = some nvs ∧
+      nvs.Pairwise (fun a b => cmpBytes (a.1 ++ [eqByte]) (b.1 ++ [eqByte]) = .lt) ∧
+      ∀ n v, (n, v) ∈ nvs ↔ ∃ p ∈ l, cut p = some (n, v) := by
+  induction l with
+  | nil => exact ⟨[], rfl, by simp, by simp⟩
+  | cons p l ih =>
+    rw [List.pairwise_cons] at hs
+    obtain ⟨nvs, h1, h2, h3⟩ := ih (fun q hq => hv q (List.mem_cons_of_mem _ hq)) hs.2
+    obtain ⟨n', v', hc, _⟩ := hv p (List.mem_cons_self ..)
+    refine ⟨(n', v') :: nvs, by simp [each, hc, h1], ?_, ?_⟩
+    · refine List.pairwise_cons.2 ⟨?_, h2⟩
+      rintro ⟨n, v⟩ hb
+      obtain ⟨q, hq, hcq⟩ := (h3 n v).1 hb
+      have := hs.1 q hq
+      simp only [KLt, key_of_cut hc, key_of_cut hcq] at this
+      exact this
+    · intro n v
+      simp only [List.mem_cons, h3, Prod.mk.injEq, exists_eq_or_imp, hc, Option.some.injEq]
+      constructor
+      · rintro (⟨rfl, rfl⟩ | h)
+        · exact .inl ⟨rfl, rfl⟩
+        · exact .inr h
+      · rintro (⟨rfl, rfl⟩ | h)
+        · exact .inl ⟨rfl, rfl⟩
+        · exact .inr h
+
+/-! ### `Get`: the comparison closure and the binary search -/
+
+theorem getCmp_nil_cons (b : UInt8) (p : Bytes) :
+    getCmp [] (b :: p) = if b < eqByte then -1 else if b > eqByte then 1 else 0 := by
+  simp [getCmp, cmpBytes, ordToInt]
+
+theorem getCmp_cons_cons (a : UInt8) (name : Bytes) (b : UInt8) (p : Bytes) :
+    getCmp (a :: name) (b :: p) = if b < a then -1 else if a < b then 1 else getCmp name p := by
+  simp only [getCmp, List.length_cons, Nat.add_lt_add_iff_right, cmpBytes, List.take_succ_cons,
+    List.getD_cons_succ]
+  by_cases h1 : b < a
+  · simp [h1, ordToInt]
+  · by_cases h2 : a < b
+    · simp [h1, h2, ordToInt]
+    · simp [h1, h2]
+
+theorem getCmp_key (name n v : Bytes) (h1 : eqByte ∉ name) (h2 : eqByte ∉ n) :
+    getCmp name (n ++ eqByte :: v) = ordToInt (cmpBytes (n ++ [eqByte]) (name ++ [eqByte])) := by
+  induction name generalizing n with
+  | nil =>
+    cases n with
+    | nil => simp [getCmp_nil_cons, cmpBytes, ordToInt]
+    | cons b n =>
+      simp only [List.mem_cons, not_or] at h2
+      have hb : ¬ b = eqByte := fun e => h2.1 e.symm
+      simp only [List.cons_append, List.nil_append, getCmp_nil_cons, cmpBytes]
+      by_cases c1 : b < eqByte
+      · simp [c1, ordToInt]
+      · by_cases c2 : eqByte < b
+        · simp [c1, c2, ordToInt]
+        · exact absurd (by grind) hb
+  | cons a name ih =>
+    simp only [List.mem_cons, not_or] at h1
+    have ha : ¬ a = eqByte := fun e => h1.1 e.symm
+    cases n with
+    | nil =>
+      simp only [List.cons_append, List.nil_append, getCmp_cons_cons, cmpBytes]
+      by_cases c1 : eqByte < a
+      · simp [c1, ordToInt]
+      · by_cases c2 : a < eqByte
+        · simp [c1, c2, ordToInt]
+        · exact absurd (by grind) ha
+    | cons b n =>
+      simp only [List.mem_cons, not_or] at h2
+      simp only [List.cons_append, getCmp_cons_cons, cmpBytes]
+      by_cases c1 : b < a
+      · simp [c1, ordToInt]
+      · by_cases c2 : a < b
+        · simp [c1, c2, ordToInt]
+        · simp only [c1, c2, if_false]
+          exact ih n h1.2 h2.2
+theorem bsearch_spec (cmp : Bytes → Int) (x : Array Bytes) (n : Nat)
+    (mono : ∀ a b, a < b → b < n → cmp (x.getD b []) < 0 → cmp (x.getD a []) < 0) :
+    ∀ fuel i j, j - i < fuel → j ≤ n →
+      (∀ k, k < i → cmp (x.getD k []) < 0) →
+      (∀ k, j ≤ k → k < n → ¬ cmp (x.getD k []) < 0) →
+      (∀ k, k < bsearch cmp x fuel i j → cmp (x.getD k []) < 0) ∧
+      (∀ k, bsearch cmp x fuel i j ≤ k → k < n → ¬ cmp (x.getD k []) < 0) := by
+  intro fuel
+  induction fuel with
+  | zero => intro i j h; omega
+  | succ fuel ih =>
+    intro i j hf hj hlo hhi
+    simp only [bsearch]
+    split
+    · next hij =>
+      have h1 : i ≤ (i + j) / 2 := by omega
+      have h2 : (i + j) / 2 < j := by omega
+      split
+      · next hneg =>
+        apply ih _ _ (by omega) hj
+        · intro k hk
+          by_cases e : k = (i + j) / 2
+          · subst e; exact hneg
+          · exact mono k ((i + j) / 2) (by omega) (by omega) hneg
+        · exact hhi
+      · next hneg =>
+        apply ih _ _ (by omega) (by omega) hlo
+        intro k hk hkn
+        by_cases e : k = (i + j) / 2
+        · subst e; exact hneg
+        · exact fun hc => hneg (mono ((i + j) / 2) k (by omega) hkn hc)
+    · next hij =>
+      exact ⟨hlo, fun k hk hkn => hhi k (by omega) hkn⟩
+
+theorem ordToInt_neg_iff (o : Ordering) : ordToInt o < 0 ↔ o = .lt := by
+  cases o <;> simp [ordToInt]
+
+theorem ordToInt_zero_iff (o : Ordering) : ordToInt o = 0 ↔ o = .eq := by
+  cases o <;> simp [ordToInt]
+
+theorem toArray_getD (l : List Bytes) (k : Nat) (hk : k < l.length) : l.toArray.getD k [] = l[k] := by
+  simp [Array.getD, hk]
+
+theorem get_unfold (l : List Bytes) (name : Bytes) (hc : eqByte ∉ name) :
+    get l name =
+      if bsearch (getCmp name) l.toArray (l.length + 1) 0 l.length < l.length ∧
+          getCmp name (l.toArray.getD (bsearch (getCmp name) l.toArray (l.length + 1) 0 l.length) []) = 0 then
+        if name.length + 1 ≤ (l.toArray.getD (bsearch (getCmp name) l.toArray (l.length + 1) 0 l.length) []).length then
+          .val ((l.toArray.getD (bsearch (getCmp name) l.toArray (l.length + 1) 0 l.length) []).drop (name.length + 1))
+        else .panic
+      else .unset := by
+  simp [get, hc]
+theorem get_inv (l : List Bytes) (name : Bytes) (hv : ∀ p ∈ l, Valid p) (hs : l.Pairwise KLt) :
+    (∀ v, specGet l name = some v → get l name = .val v) ∧
+    (specGet l name = none → get l name = .unset) := by
+  by_cases hc : eqByte ∈ name
+  · have h1 : get l name = .unset := by simp [get, hc]
+    rw [specGet_of_mem_eq l name hc]
+    simp [h1]
+  · -- the comparison closure only looks at the key
+    have hcmp : ∀ k (hk : k < l.length),
+        getCmp name (l.toArray.getD k []) = ordToInt (cmpBytes (key l[k]) (name ++ [eqByte])) := by
+      intro k hk
+      rw [toArray_getD l k hk]
+      obtain ⟨n', v', hcut, _⟩ := hv l[k] (List.getElem_mem hk)
+      obtain ⟨e, hn'⟩ := cut_some hcut
+      rw [key_of_cut hcut]
+      conv => lhs; rw [e]
+      exact getCmp_key name n' v' hc hn'
+    have hlt : ∀ a b (ha : a < l.length) (hb : b < l.length), a < b →
+        cmpBytes (key l[a]) (key l[b]) = .lt := by
+      intro a b ha hb hab
+      exact (List.pairwise_iff_getElem.1 hs) a b ha hb hab
+    have mono : ∀ a b, a < b → b < l.length → getCmp name (l.toArray.getD b []) < 0 →
+        getCmp name (l.toArray.getD a []) < 0 := by
+      intro a b hab hb
+      rw [hcmp a (by omega), hcmp b hb, ordToInt_neg_iff, ordToInt_neg_iff]
+      exact cmpBytes_lt_trans _ _ _ (hlt a b (by omega) hb hab)
+    obtain ⟨hlo, hhi⟩ := bsearch_spec (getCmp name) l.toArray l.length mono (l.length + 1) 0 l.length
+      (by omega) (Nat.le_refl _) (fun k hk => absurd hk (Nat.not_lt_zero k))
+      (fun k h1 h2 => absurd h1 (by omega))
+    rw [get_unfold l name hc]
+    generalize bsearch (getCmp name) l.toArray (l.length + 1) 0 l.length = r at hlo hhi ⊢
+    split
+    · next hcond =>
+      obtain ⟨hr, hz⟩ := hcond
+      rw [hcmp r hr, ordToInt_zero_iff, cmpBytes_eq_iff] at hz
+      rw [toArray_getD l r hr]
+      obtain ⟨n', v', hcut, hn'⟩ := hv l[r] (List.getElem_mem hr)
+      rw [key_of_cut hcut] at hz
+      have : n' = name := List.append_cancel_right hz
+      subst this
+      have e := (cut_some hcut).1
+      have hsome : specGet l n' = some v' :=
+        (specGet_eq_some_iff l n' v' hv hs).2 ⟨l[r], List.getElem_mem hr, hcut⟩
+      have hlen : n'.length + 1 ≤ l[r].length := by rw [e]; simp
+      have hdrop : l[r].drop (n'.length + 1) = v' := by
+        rw [e]
+        simp
+      rw [if_pos hlen, hdrop, hsome]
+      simp
+    · next hcond =>
+      have hnone : specGet l name = none := by
+        rw [specGet_eq_none_iff l name hv hs]
+        intro p hp v hcut
+        obtain ⟨k, hk, rfl⟩ := List.getElem_of_mem hp
+        have hkey : cmpBytes (key l[k]) (name ++ [eqByte]) = .eq := by
+          rw [key_of_cut hcut]; exact cmpBytes_self _
+        have hck : getCmp name (l.toArray.getD k []) = 0 := by
+          rw [hcmp k hk, hkey]; rfl
+        by_cases h1 : k < r
+        · have := hlo k h1
+          omega
+        · by_cases h2 : k = r
+          · subst h2
+            exact hcond ⟨hk, hck⟩
+          · have hrk : r < k := by omega
+            have hr : r < l.length := by omega
+            refine hhi r (Nat.le_refl _) hr ?_
+            rw [hcmp r hr, ordToInt_neg_iff]
+            have := hlt r k hr hk hrk
+            rw [(cmpBytes_eq_iff _ _).1 hkey] at this
+            exact this
+      rw [hnone]
+      simp
 
 end ShVerif.C34
